@@ -1031,3 +1031,63 @@ func (fs *MemFS) Names() []string {
 	sort.Strings(out)
 	return out
 }
+
+// ---- directory listing (ReadDir, Glob, Walk) ----
+
+type memDirEntry struct{ info memInfo }
+
+func (e memDirEntry) Name() string { return e.info.name }
+func (e memDirEntry) IsDir() bool  { return e.info.dir }
+func (e memDirEntry) Type() FileMode {
+	if e.info.dir {
+		return os.ModeDir
+	}
+	return 0
+}
+func (e memDirEntry) Info() (FileInfo, error) { return e.info, nil }
+
+// readDir lists the immediate children of a directory, sorted by name.
+func (fs *MemFS) readDir(name string) ([]DirEntry, error) {
+	p := cleanPath(name)
+	fs.mu.Lock()
+	defer fs.mu.Unlock()
+	fs.nOps++
+	if err := fs.fault("readdir", name); err != nil {
+		return nil, err
+	}
+	if _, ok := fs.dirs[p]; !ok {
+		if _, isFile := fs.names[p]; isFile {
+			return nil, &PathError{Op: "readdir", Path: name, Err: errENOTDI}
+		}
+		return nil, &PathError{Op: "open", Path: name, Err: errENOENT}
+	}
+	var out []DirEntry
+	for d := range fs.dirs {
+		if d != p && filepath.Dir(d) == p {
+			out = append(out, memDirEntry{memInfo{name: filepath.Base(d), dir: true}})
+		}
+	}
+	for f, ino := range fs.names {
+		if filepath.Dir(f) == p {
+			out = append(out, memDirEntry{memInfo{name: filepath.Base(f), size: int64(len(ino.data))}})
+		}
+	}
+	sort.Slice(out, func(i, j int) bool { return out[i].Name() < out[j].Name() })
+	return out, nil
+}
+
+// allPaths returns every file and directory path, sorted.
+func (fs *MemFS) allPaths() []string {
+	fs.mu.Lock()
+	defer fs.mu.Unlock()
+	fs.nOps++
+	out := make([]string, 0, len(fs.names)+len(fs.dirs))
+	for p := range fs.names {
+		out = append(out, p)
+	}
+	for d := range fs.dirs {
+		out = append(out, d)
+	}
+	sort.Strings(out)
+	return out
+}
